@@ -53,8 +53,12 @@ func runSend(c SendCase, r *pbt.R) {
 		p.Handshake(10 * time.Minute)
 		if !(p.C.OK() && p.S.OK()) {
 			r.Class("handshake-failed")
-
-			return
+			if c.Ver == 13 {
+				return
+			}
+			// DTLS 1.2 fragments are readable off the tap whatever became of the handshake (at an MTU of a few
+			// bytes a flight needs more fragments than the receiver's reassembly buffer holds: 1000)
+			r.Classf("handshake-failed-at-mtu<=%d", (min(c.MTUC, c.MTUS)/8+1)*8)
 		}
 		var dec *ref.Decoder
 		if c.Ver == 13 {
@@ -143,7 +147,7 @@ func enumSend(tier string, yield func(SendCase) bool) {
 	if tier == "thorough" {
 		step13 = 1
 	}
-	for m := 24; m <= 900; m++ {
+	for m := 1; m <= 900; m++ {
 		if !yield(SendCase{Ver: 12, MTUC: m, MTUS: m, CAuth: true}) {
 			return
 		}
@@ -173,7 +177,7 @@ func genSend(t *rapid.T) SendCase {
 func init() {
 	pbt.Register(pbt.Prop[SendCase]{
 		Name: "sender-fragment-size-grid", Enum: enumSend, Exhaustive: true, Run: runSend, Crashy: true,
-		Rule: "sender: client-authenticated handshake at every MTU 24..900 (DTLS 1.3: 120..900, step 7, thorough step 1): every emitted handshake fragment carries <= MTU body bytes, stays inside its message, and each message is transmitted completely. non-trivial = some message was fragmented",
+		Rule: "sender: client-authenticated handshake at every MTU 1..900 (DTLS 1.3: 120..900, step 7, thorough step 1): every emitted handshake fragment carries <= MTU body bytes, stays inside its message, and each message is transmitted completely. non-trivial = some message was fragmented",
 	})
 	pbt.Register(pbt.Prop[SendCase]{
 		Name: "sender-fragment-size", Quick: 600, Thorough: 20000, Gen: genSend, Run: runSend, Crashy: true,
